@@ -1,9 +1,10 @@
 package props
 
 import (
-	"sync"
 	"bytes"
 	"fmt"
+	"strings"
+	"sync"
 	"testing"
 
 	"github.com/fiorix/go-diameter/v4/diam"
@@ -111,6 +112,13 @@ func TestC20(t *testing.T) {
 		c20Deep(c, g, d, decoded)
 	})
 	rec.Suite("search-after-change", rec.N(2000, 400000), func(c *ev.Case) { c20AfterChange(c, g) })
+	// a dictionary that grows while the application runs: searches by name before and after a
+	// later Load that gives the name another meaning for the message's application (the name is
+	// defined in base first; the extension defines it in the application itself, or in base again
+	// with another code).  A name resolves through the dictionary as it is now.
+	rec.Suite("search-after-load", rec.N(40, 2000), func(c *ev.Case) {
+		c20AfterLoad(c, c.I%4)
+	})
 	rec.Suite("concurrent-searches", rec.N(300, 60000), func(c *ev.Case) { c20Concurrent(c, g) })
 	nSearch := rec.N(40000, 20000000)
 	if rec.Race() {
@@ -392,7 +400,10 @@ func c20Deep(c *ev.Case, g *lib.Ctx, depth int, decoded bool) {
 		var got []*diam.AVP
 		var one *diam.AVP
 		var err, err1 error
-		if p, bad := guard(func() { got, err = dm.FindAVPs(q.query, refdict.AnyVendor); one, err1 = dm.FindAVP(q.query, refdict.AnyVendor) }); bad {
+		if p, bad := guard(func() {
+			got, err = dm.FindAVPs(q.query, refdict.AnyVendor)
+			one, err1 = dm.FindAVP(q.query, refdict.AnyVendor)
+		}); bad {
 			c.Fail(sig("panic"), nil, nil, "search panicked: %s; %s", p, desc)
 			return
 		}
@@ -459,7 +470,10 @@ func c20AfterChange(c *ev.Case, g *lib.Ctx) {
 			var one *diam.AVP
 			var err, err1 error
 			refWalk(dm.AVP, code, &want)
-			if p, bad := guard(func() { got, err = dm.FindAVPs(code, refdict.AnyVendor); one, err1 = dm.FindAVP(code, refdict.AnyVendor) }); bad {
+			if p, bad := guard(func() {
+				got, err = dm.FindAVPs(code, refdict.AnyVendor)
+				one, err1 = dm.FindAVP(code, refdict.AnyVendor)
+			}); bad {
 				c.Fail(ev.Sig{"op": "panic", "kind": "after-change"}, nil, trace, "search panicked after %v: %s", trace, p)
 				return false
 			}
@@ -679,6 +693,80 @@ func c20Concurrent(c *ev.Case, g *lib.Ctx) {
 	if problem != "" {
 		c.Fail(ev.Sig{"op": "concurrent-search", "kind": "present"}, nil, nil, "%d goroutines searching one message of %d top-level AVPs at the same time: %s", G, len(m.Nodes), problem)
 	}
+}
+
+func c20AfterLoad(c *ev.Case, variant int) {
+	sig := func(op string) ev.Sig { return ev.Sig{"op": op, "kind": "search-after-load"} }
+	// the generated dictionary without the application-level G-Ident
+	baseXML := strings.Replace(lib.GenXML, `    <avp name="G-Ident" code="9102" must="M"><data type="OctetString"/></avp>`+"\n", "", 1)
+	if baseXML == lib.GenXML {
+		c.Fail(sig("setup"), nil, nil, "the generated dictionary no longer has the application-level G-Ident")
+		return
+	}
+	gf, err := refdict.Parse("gen-base", baseXML)
+	if err != nil {
+		c.Fail(sig("setup"), nil, nil, "%v", err)
+		return
+	}
+	cx, err := lib.Load("gen-base", gf)
+	if err != nil {
+		c.Fail(sig("setup"), nil, nil, "%v", err)
+		return
+	}
+	app := uint32(8388001)
+	ext := `<?xml version="1.0" encoding="UTF-8"?><diameter><application id="8388001" type="auth" name="Gen-App"><avp name="G-Ident" code="9102" must="M"><data type="OctetString"/></avp></application></diameter>`
+	newCode := uint32(9102)
+	if variant%2 == 1 {
+		// the later file redefines the name in base, with another code
+		ext = `<?xml version="1.0" encoding="UTF-8"?><diameter><application id="0" name="Base"><avp name="G-Ident" code="9103" must="M"><data type="OctetString"/></avp></application></diameter>`
+		newCode = 9103
+	}
+	m := diam.NewMessage(8388002, diam.RequestFlag, app, 1, 2, cx.Parser)
+	m.NewAVP(9003, 0x40, 0, datatype.DiameterIdentity("a.b"))
+	m.NewAVP(newCode, 0x40, 0, datatype.OctetString("x"))
+	m.NewAVP(9018, 0x40, 0, &diam.GroupedAVP{AVP: []*diam.AVP{diam.NewAVP(newCode, 0x40, 0, datatype.OctetString("y")), diam.NewAVP(9003, 0x40, 0, datatype.DiameterIdentity("c.d"))}})
+	if variant >= 2 {
+		wire, _ := m.Serialize()
+		if m, err = diam.ReadMessage(bytes.NewReader(wire), cx.Parser); err != nil {
+			c.Fail(sig("setup"), nil, nil, "ReadMessage: %v", err)
+			return
+		}
+	}
+	check := func(when string, code uint32) bool {
+		var want []*diam.AVP
+		refWalk(m.AVP, code, &want)
+		got, err := m.FindAVPs("G-Ident", refdict.AnyVendor)
+		if err != nil || !samePtrs(got, want) {
+			c.Fail(sig("FindAVPs"), nil, nil, "%s the later Load: FindAVPs(\"G-Ident\") returned %d AVPs (err=%v), the dictionary now resolves the name to code %d for application %d and the reference walk finds %d", when, len(got), err, code, app, len(want))
+			return false
+		}
+		one, err := m.FindAVP("G-Ident", refdict.AnyVendor)
+		if err != nil || len(want) == 0 || one != want[0] {
+			c.Fail(sig("FindAVP"), nil, nil, "%s the later Load: FindAVP(\"G-Ident\") did not return the first AVP with code %d (err=%v)", when, code, err)
+			return false
+		}
+		var wantP []*diam.AVP
+		refPath(m.AVP, []uint32{9018, code}, &wantP)
+		gotP, err := m.FindAVPsWithPath([]interface{}{"G-Group", "G-Ident"}, refdict.AnyVendor)
+		if err != nil || !samePtrs(gotP, wantP) {
+			c.Fail(sig("FindAVPsWithPath"), nil, nil, "%s the later Load: FindAVPsWithPath([G-Group G-Ident]) returned %d AVPs (err=%v), the reference finds %d", when, len(gotP), err, len(wantP))
+			return false
+		}
+		return true
+	}
+	c.Class("search-after-load/variant=%d", variant)
+	if !check("before", 9003) {
+		return
+	}
+	if err := cx.Parser.Load(strings.NewReader(ext)); err != nil {
+		c.Fail(sig("setup"), nil, nil, "Load of the extension: %v", err)
+		return
+	}
+	if !check("after", newCode) {
+		return
+	}
+	c.Event("queries", 6)
+	c.Event("path_queries", 2)
 }
 
 func firstPtrDiff(a, b []*diam.AVP) int {
